@@ -22,7 +22,7 @@ TRUSTED_BASE = [
 ]
 
 ASSUMPTIONS_COMMON = [
-    'A-meta: the step from per-unit contracts to a statement about every grammar (structural induction over expression trees + induction over the unfolding depth of rule references, partial correctness) is machine-checked in Lean 4 (meta/Compose.lean, `./check meta`, re-run in the thorough tier of C01); that its hypotheses hstep/href/hwrap are what the discharged clause families say about the real code, and hfin (a terminating run has finite call depth), remain a reading of DESIGN.md 4',
+    'A-meta: the step from per-unit contracts to a statement about every grammar (structural induction over expression trees + induction over the unfolding depth of rule references, partial correctness) is machine-checked in Lean 4 (meta/Compose.lean; the composition step of the segment induction in meta/Segments.lean; `./check meta`, re-run in the thorough tier of C01); that its hypotheses hstep/href/hwrap are what the discharged clause families say about the real code, and hfin (a terminating run has finite call depth), remain a reading of DESIGN.md 4',
     'A-subst: a parent uses a child only through child.compile() and the two static flags (backed dynamically: every attribute of an abstract child read from outside it while the real generator ran is recorded and must belong to the child interface - obligations `backing:A-subst` in C01/C02/C03/C05/C06)',
     'A-uniform: the generator emits the same template for literal values beyond the sentinel literals and for arities beyond those proved (Choice, Longest, Skip and Seq are proved for every arity by segment induction, class bodies by closure checks at arity 5..8; backed syntactically: generator branches read literal payloads only as empty/None/0/1 tests - `backing:A-uniform` in C01)',
     'A-wf: grammars are well-formed (no left recursion, no repetition of an expression that can succeed without consuming); parsing terminates; partial correctness only',
